@@ -1730,6 +1730,7 @@ func runChild(h *hist, mode, tag string, arg int, inject string, logPath string)
 		args = append(args, "-e", "inject="+inject)
 	}
 	args = append(args, self)
+	os.Remove(logPath)
 	cmd := exec.Command("strace", args...)
 	cmd.Env = append(os.Environ(), "C18_CHILD="+mode, "C18_DIR="+group.Directory, "C18_DATA="+group.DataDirectory,
 		"C18_TAG="+tag, fmt.Sprintf("C18_ARG=%d", arg), "GOMAXPROCS=1")
@@ -1850,8 +1851,8 @@ func crashHistory(t *tr.Trace, r *tr.Rand, full bool) {
 	// reference run, not killed: the system-call sequence and the new bytes
 	ref := runChild(h, mode, oldTag, arg, "", logPath)
 	if ref.rc != 0 || ref.killed {
+		// the tool, not the code under test: nothing is compared
 		t.Note("strace-unusable")
-		t.Op("unusable", "syscalls", mode)
 		return
 	}
 	seq, counts := projectSyscalls(ref.log, h.dir)
@@ -1887,6 +1888,11 @@ func crashHistory(t *tr.Trace, r *tr.Rand, full bool) {
 			}
 			restore()
 			run := runChild(h, mode, oldTag, arg, fmt.Sprintf("%s:signal=SIGKILL:when=%d", sc, n), logPath)
+			if run.rc == -2 || !strings.Contains(run.log, "(") {
+				// strace itself did not run or left no log: not a crash point
+				t.Note("strace-run-failed")
+				continue
+			}
 			points++
 			seqK, _ := projectSyscalls(run.log, h.dir)
 			got, err := os.ReadFile(h.file)
